@@ -97,8 +97,19 @@ def _args(act):
     return []
 
 
-def evaluate(ctx, name, scripts, c, timeout=600):
-    """Run TLC over all scripts; returns one behaviour (list of steps) per script, in order."""
+def evaluate(ctx, name, scripts, c, timeout=900, batch=250):
+    """Run TLC over all scripts; returns one behaviour (list of steps) per script, in order.  Large sets are
+    evaluated in batches, four TLC runs side by side."""
+    if len(scripts) > batch:
+        from concurrent.futures import ThreadPoolExecutor
+        parts = [scripts[i:i + batch] for i in range(0, len(scripts), batch)]
+        with ThreadPoolExecutor(4) as ex:
+            outs = list(ex.map(lambda a: _evaluate(ctx, '%s-%d' % (name, a[0]), a[1], c, timeout), enumerate(parts)))
+        return [b for o in outs for b in o]
+    return _evaluate(ctx, name, scripts, c, timeout)
+
+
+def _evaluate(ctx, name, scripts, c, timeout):
     wd = os.path.join(ctx.scratch, 'scr-' + name)
     os.makedirs(wd, exist_ok=True)
     tlc._prepare('ZScript', wd)
@@ -141,7 +152,7 @@ def evaluate(ctx, name, scripts, c, timeout=600):
 def _run(wd, cfg, dot, timeout):
     import subprocess
     import time
-    cmd = tlc._java_cmd() + ['-workers', '4', '-metadir', os.path.join(wd, 'meta'), '-noGenerateSpecTE',
+    cmd = tlc._java_cmd((), os.environ.get('ZV_TLC_HEAP') or '4g') + ['-workers', '4', '-metadir', os.path.join(wd, 'meta'), '-noGenerateSpecTE',
                              '-dump', 'dot,actionlabels', dot, '-config', cfg, os.path.join(wd, 'MCScripts.tla')]
     t0 = time.time()
     p = subprocess.run(cmd, cwd=wd, stdout=subprocess.PIPE, stderr=subprocess.STDOUT, text=True, timeout=timeout)
